@@ -82,17 +82,21 @@ def halfEven (num den : Nat) : Nat :=
   else if 2 * r = den then (if q % 2 = 1 then q + 1 else q)
   else q
 
+/-- `roundQ` once the exponent is decided: with `g ∈ {0, 1}` the exponent is
+    `e = da + g - db - prec`; the coefficient is `num/den/10^e` rounded half-even. -/
+def roundQ2 (prec num den da db g : Nat) : Dec :=
+  if db + prec ≤ da + g then
+    force (da + g - (db + prec)) fun e => ⟨halfEven num (den * 10 ^ e), (e : Int)⟩
+  else
+    force (db + prec - (da + g)) fun e => ⟨halfEven (num * 10 ^ e) den, -(e : Int)⟩
+
 /-- `roundQ` once the digit counts `da`, `db` of `num`, `den` are known:
     `10^(da-db-1) < num/den < 10^(da-db+1)`; the exponent `e` is chosen so that
     `10^(prec-1) ≤ num/den/10^e < 10^prec`, i.e. `e = da - db - prec (+1 if num/den ≥ 10^(da-db))`. -/
 def roundQ1 (prec num den da db : Nat) : Dec :=
   let ge : Bool :=
     if db ≤ da then decide (den * 10 ^ (da - db) ≤ num) else decide (den ≤ num * 10 ^ (db - da))
-  force (if ge then 1 else 0) fun g =>
-  if db + prec ≤ da + g then
-    force (da + g - (db + prec)) fun e => ⟨halfEven num (den * 10 ^ e), (e : Int)⟩
-  else
-    force (db + prec - (da + g)) fun e => ⟨halfEven (num * 10 ^ e) den, -(e : Int)⟩
+  force (if ge then 1 else 0) fun g => roundQ2 prec num den da db g
 
 /-- `num/den` (den > 0) correctly rounded to `prec` significant digits, half-even. -/
 def roundQ (prec : Nat) (num den : Nat) : Dec :=
@@ -287,6 +291,15 @@ def getDemandAt (l : List (Schedule K)) (t : Int) : Except Err K :=
     The comprehension stops at the first exception. -/
 def getTariffs (l : List (Schedule K)) (start : Int) (n period : Nat) : Except Err (List K) :=
   (List.range n).mapM (fun (t : Nat) => getTariffAt l (start + (t : Int) * ((period : Int) * 60)))
+
+/-- `get_tariffs` in full generality: `startUs` = the start in microseconds since the epoch
+    (datetimes carry microseconds; `get_tariff` ignores them, i.e. floors to the second) and
+    `stepUs` = `timedelta(minutes=period)` in microseconds, whatever `period` — an int, a float
+    such as 2.5 or 0.01, even a negative number — rounds to.  A timezone-aware start is treated by
+    the code (and by Python's datetime arithmetic) as its wall-clock fields: tzinfo is never
+    consulted, so `startUs` is then the wall-clock reading of the start. -/
+def getTariffsUs (l : List (Schedule K)) (startUs : Int) (n : Nat) (stepUs : Int) : Except Err (List K) :=
+  (List.range n).mapM (fun (t : Nat) => getTariffAt l ((startUs + (t : Int) * stepUs) / 1000000))
 
 /-- `Interface.get_prices(length, start)` (interface.py:675-697): `simStart` is the simulator's
     start instant, `idx` the (given or current) time step. -/
